@@ -487,3 +487,11 @@ def t_emode_lookup(world):
 _t_el = tasks
 def tasks(tier):
     return _t_el(tier) + [('emode_lookup', t_emode_lookup)]
+
+
+
+# ---------------------------------------------------------------- C04.k: the prices the health figures are built from (shared with C09.d: EMA vs spot, confidence band of the SAME message, bias) and the helpers that fetch them (C09.j)
+_t_c04k = tasks
+def tasks(tier):
+    import specs.C09 as C09
+    return _t_c04k(tier) + [('price_pyth', renamed(C09.t_pyth, 'C09.d.', 'C04.k.')), ('price_switchboard', renamed(C09.t_switchboard, 'C09.d.', 'C04.k.'))]
